@@ -489,6 +489,12 @@ func writeEvidence(p *Property, col *Collector, proof proofInfo, tier string, se
 		"scenario_counts":          col.extraCounts,
 		"traces_validated_against_impl": col.evaluations - col.skipped,
 	}
+	if proof.Discharged == 0 {
+		// a run whose proofs did not check claims no discharged obligation
+		delete(cov, "obligations")
+		delete(cov, "discharged")
+		cov["obligations_total"] = proof.Obligations
+	}
 	if proof.LeanChecker != "" {
 		cov["leanchecker"] = proof.LeanChecker
 	}
